@@ -54,7 +54,7 @@ def plan(ctx, table):
             sig = r["mut"] == "sig-byte"
             if base_id(e["row"]) in base_accept:
                 if ctx.tier == "thorough":
-                    r["npos"], r["bits"] = -1, (8 if sig else 2)
+                    r["npos"], r["bits"] = -1, 8
                     n_full += 1
                 elif (zlib.crc32(row_key(e["row"]).encode()) + ctx.seed) % 6 == 0:
                     r["npos"], r["bits"] = -1, (8 if sig else 1)
@@ -148,7 +148,7 @@ def run(ctx):
             "(isValidAssumingCurTimeWithin)",
             "byte mutations: single-bit flips; quick tier mutates every byte position for 1/6 of the accepted base rows "
             "and 12 spread positions for the others; thorough mutates every position of every accepted base row "
-            "(all 8 bits of every decoded-signature byte)",
+            "(all 8 bits of every content and decoded-signature byte)",
             "bytes outside the signed content and the decoded signature (separators, base64 layout) are only covered by sig-reencode",
         ])
 
